@@ -49,6 +49,13 @@ def lemma(**opts):
     return deco
 
 
+def loop_invariant(**opts):
+    """loop invariants are proof artefacts of the symbolic verifier; natively they are inert"""
+    def deco(fn):
+        return fn
+    return deco
+
+
 def requires(cond):
     if ST.phase == 'pre' and not cond:
         ST.pre_ok = False
@@ -155,3 +162,15 @@ def same(a, b):
     if isinstance(a, (list, tuple)) and isinstance(b, (list, tuple)):
         return len(a) == len(b) and all(same(x, y) for x, y in zip(a, b))
     return a == b
+
+
+def ghost_calls(fn):
+    return len(fn.results)
+
+
+def ghost_result(fn, k):
+    return fn.results[k]
+
+
+def ghost_arg(fn, k, i):
+    return fn.args[k][i]
